@@ -13,6 +13,9 @@ import (
 
 type externalFn func(fr *frame, args []value) value
 
+// notHandled is returned by a stub that declines: the function's own SSA body is interpreted.
+type notHandled struct{}
+
 var externals = map[string]externalFn{}
 
 func lookupExternal(i *interpreter, fn *ssa.Function, name string) externalFn {
@@ -189,6 +192,11 @@ func init() {
 		"(*sync.RWMutex).Unlock":  func(fr *frame, a []value) value { mutexUnlock(fr.i, a[0].(*value)); return nil },
 		"(*sync.RWMutex).RLock":   func(fr *frame, a []value) value { mutexLock(fr.i, a[0].(*value), false); return nil },
 		"(*sync.RWMutex).RUnlock": func(fr *frame, a []value) value { mutexUnlock(fr.i, a[0].(*value)); return nil },
+		"(time.Time).Sub": timeSub,
+		"time.Now":        timeNow,
+		"time.Sleep":      func(fr *frame, a []value) value { fr.i.yield("time.Sleep"); return nil },
+		"time.runtimeNano": func(fr *frame, a []value) value { return int64(1) },
+		"time.now":        func(fr *frame, a []value) value { return tuple{int64(1700000000), int32(0), int64(1)} },
 		"internal/race.Enabled": nil,
 		"unsafe.String":         nil,
 		"strings.(*Builder).copyCheck": func(fr *frame, a []value) value { return nil },
@@ -342,4 +350,47 @@ func mutexUnlock(i *interpreter, p *value) {
 	i.release(&m.vc)
 	m.locked = false
 	i.yield("mutex unlock")
+}
+
+// timeSub summarises time.Time.Sub for symbolic instants: d = dsec*1e9 + dnsec, under the
+// assumption that neither instant carries a monotonic reading and that the instants are
+// less than 2^33 s apart (so the overflow re-check, which divides a symbolic value by 1e9,
+// is skipped). Concrete instants use the real function.
+func timeSub(fr *frame, a []value) value {
+	i := fr.i
+	t, u := a[0].(structure), a[1].(structure)
+	if !isSym(t[0]) && !isSym(t[1]) && !isSym(u[0]) && !isSym(u[1]) {
+		return notHandled{}
+	}
+	ts := i.ts
+	tw, uw := i.term(t[0], types.Uint64), i.term(u[0], types.Uint64)
+	te, ue := i.term(t[1], types.Int64), i.term(u[1], types.Int64)
+	mono := ts.Const(64, 1<<63)
+	noMono := ts.And(ts.Eq(ts.Bin(OpBAnd, tw, mono), ts.Const(64, 0)), ts.Eq(ts.Bin(OpBAnd, uw, mono), ts.Const(64, 0)))
+	if !i.branch(noMono) {
+		i.abort(abUnsupported, "time.Time.Sub on an instant with a monotonic clock reading")
+	}
+	dsec := ts.Bin(OpSub, te, ue)
+	lim := ts.Const(64, 1<<33)
+	i.assume(ts.And(ts.Bin(OpSlt, ts.Un(OpNeg, lim), dsec), ts.Bin(OpSlt, dsec, lim)))
+	nmask := ts.Const(64, 1<<30-1)
+	dn := ts.Bin(OpSub, ts.Bin(OpBAnd, tw, nmask), ts.Bin(OpBAnd, uw, nmask))
+	d := ts.Bin(OpAdd, ts.Bin(OpMul, dsec, ts.Const(64, 1000000000)), dn)
+	return i.mkVal(d, types.Int64)
+}
+
+// timeNow: a nondeterministic wall clock without monotonic reading: fresh symbolic seconds
+// in [0, 2^33) since the Unix epoch and nanoseconds in [0, 1e9).
+func timeNow(fr *frame, a []value) value {
+	i := fr.i
+	ts := i.ts
+	sec := i.fresh(64, types.Int64)
+	ns := i.fresh(32, types.Uint32)
+	i.assume(ts.And(ts.Bin(OpSle, ts.Const(64, 0), sec.t), ts.Bin(OpSlt, sec.t, ts.Const(64, 1<<33))))
+	i.assume(ts.Bin(OpUlt, ns.t, ts.Const(32, 1000000000)))
+	pkg := i.prog.ImportedPackage("time")
+	loc := i.globals[pkg.Var("localLoc")]
+	const unixToInternal = (1969*365 + 1969/4 - 1969/100 + 1969/400) * 86400
+	ext := ts.Bin(OpAdd, sec.t, ts.Const(64, uint64(unixToInternal)))
+	return structure{i.mkVal(ts.ZExt(ns.t, 64), types.Uint64), i.mkVal(ext, types.Int64), loc}
 }
